@@ -371,8 +371,26 @@ def main():
 
 
 MANIFEST = {
-    "claimed": False,
-    "text": "",
-    "note": "",
+    "claimed": True,
+    "text": "Theorems (Coq, for every enc/dec satisfying the stated AEAD premises, every key set, cookie, nonce, history incl. 0, "
+            "every list of fresh keys with fewer than 2^32 keys in total): C26_roundtrip (decode(encode c) = c for every key set with a "
+            "valid primary); C26_window / C26_window_any_primary (a cookie issued after |fs1| rotations decodes to its content after "
+            "|fs2| more rotations iff |fs2| <= history, and gives DecryptError otherwise - an equation, both directions; also for restored "
+            "sets whose primary is not the newest key); C26_decodes_only_genuine (whatever decodes is, within its declared length, byte for "
+            "byte the encoding under a current key of what it decodes to); C26_tamper (any byte string differing from an issued cookie "
+            "within its length - modified, truncated - is rejected, provided it carries no forged ciphertext: the INT-CTXT premise "
+            "`unforged`; so changes of the unauthenticated id and length fields and of the nonce are always caught); C26_foreign (cookies "
+            "under a key not in the set are rejected, needs the key-separation idealisation); C26_newest_key / C26_new_is_newest (after "
+            "every rotation primary = last = the key just generated and encode_cookie encrypts under it); C26_decode_total, "
+            "C26_encode_panic_iff (decode never panics; encode panics iff primary does not index a key). The model is tied on every run to "
+            "KeySetProvider::{new,load,rotate} and KeySet::{encode_cookie,decode_cookie}: every state, every cookie byte string and every "
+            "decode result of generated op sequences (windows, all byte positions overwritten, all truncations, id_offset wrap) must match.",
+    "note": "Trusted: Coq kernel + vm_compute; hand-written model coq/Model/KeySet.v; harness + python driver. AES-SIV is NOT modelled: "
+            "aead_correct, aead_sound, aead_tag16, aead_bytes are facts of a deterministic tag-recomputing AEAD, aead_key_separation and the "
+            "`unforged` premise of C26_tamper are the idealisation 'forgery probability zero' (premises in the statements, jointly satisfiable: "
+            "C26_hypotheses_satisfiable; no Axiom). Confidentiality of the cookie content is the AEAD's and is not proved. C26_tamper needs "
+            "distinct keys (NoDup). In the correspondence the model's enc/dec is the table of encryptions that the harness verified with a "
+            "fresh AesSivCmac512 instance; fresh keys and nonces are oracles read back from the implementation. Print Assumptions: closed "
+            "under the global context for every theorem.",
     "design_ref": "DESIGN.md 3 C26",
 }
